@@ -7,7 +7,9 @@
 // define both `report` and `aggregate` (corpus/C02/pool_triggers.json), (c) the "Avoid" examples of
 // docs/rules (a broad sample of ordinary rules), linted with every rule enabled.  For every file
 // of a composition workspace the lint query is also evaluated directly with and without the
-// "collect" operation (H_ops of c02_single_file_compose, rule by rule).
+// "collect" operation (H_ops of c02_single_file_compose, rule by rule).  (d) size boundaries: workspaces
+// of N files, N across and around powers of two and typical pool sizes, every file with a violation
+// only it has; one run over all N files, the blocks of a partition, some files alone (runSized).
 //
 // usage: c02 <out.jsonl> <tier> <workdir> <extra-dir-names,comma> [fixed-trees.json [only]]
 package main
@@ -522,6 +524,10 @@ type ComposeCase struct {
 	ProbeOnly  bool             `json:"probe_only,omitempty"` // quick tier: only the lint query with/without collect, no Lint runs
 	Diff       *Diff            `json:"diff,omitempty"`
 	MinWS      *probe.Workspace `json:"min_ws,omitempty"`
+	// sized workspaces: the files for which the lint query was tabulated (Ops) and which were linted alone up front;
+	// nil = every file of the workspace
+	Probed []string `json:"probed,omitempty"`
+	Sized  int      `json:"sized,omitempty"` // number of files of a size-boundary workspace
 }
 
 func lintSubset(ctx context.Context, ws probe.Workspace, root string, files []string) (SubsetRun, *SumCase) {
@@ -870,6 +876,264 @@ func (rn *runner) shrinkDiff(ctx context.Context, ws probe.Workspace, root strin
 		Rules: rulesDiffering(cur.PerFile[f], single.PerFile[f]), From: r.Files}
 }
 
+// ---------------------------------------------------------------- size boundaries
+//
+// Whatever splits the files of ONE run into shares (worker pools, chunks, batches of the per-file evaluation)
+// has its mistakes at the boundaries: the remainder of a division, the share of the last worker, one file more
+// than a power of two.  Workspaces of N files for N across and around powers of two and typical pool sizes; every
+// file carries a violation only it has (a constant condition over a number of its own, at a row that depends on the
+// file), so "each file's single-file violations are present in the multi-file run" is checked per file and not only
+// in sum.  One Lint call per workspace and one per block of a partition: the files share the query preparation.
+
+type sizedExpect struct {
+	Prefix string // "bugs/constant-condition@<row>:<col>:" of the violation only this file has
+	Number int
+}
+
+func sizedWorkspace(id, n int, conf string) (probe.Workspace, map[string]sizedExpect) {
+	ws := probe.Workspace{ID: id, Config: conf}
+	exp := map[string]sizedExpect{}
+	for i := 0; i < n; i++ {
+		name := fmt.Sprintf("d%d/s%d/p%03d.rego", i%3, (i/3)%4, i)
+		var b strings.Builder
+		fmt.Fprintf(&b, "package sz.n%d.f%d\n\n", n, i)
+		row := 3
+		for j := 0; j < i%5; j++ { // files of different lengths: the evaluations do not finish in the order they start
+			fmt.Fprintf(&b, "r%d := %d\n\n", j, 1000*i+j)
+			row += 2
+		}
+		num := 100000 + i
+		fmt.Fprintf(&b, "allow if {\n\t%d == %d\n\tinput.x\n}\n", num, num)
+		ws.Files = append(ws.Files, probe.File{Name: name, Content: b.String()})
+		exp[name] = sizedExpect{Prefix: fmt.Sprintf("bugs/constant-condition@%d:2:", row+1), Number: num}
+	}
+	return ws, exp
+}
+
+func countPrefix(keys []string, prefix string) int {
+	n := 0
+	for _, k := range keys {
+		if strings.HasPrefix(k, prefix) {
+			n++
+		}
+	}
+	return n
+}
+
+// runSized: the whole workspace in one run, the blocks of one partition (sizes again around the boundaries), a few
+// files alone up front (first and last in name order, one by the seed) and any file alone whose verdicts differ
+// between two runs.  Per file: the known violation is there exactly once in every run, the violations are the same in
+// every run the file takes part in, and equal to the alone run where there is one.
+func (rn *runner) runSized(ctx context.Context, rng *hutil.Rng, id, n int, conf string) ComposeCase {
+	ws, exp := sizedWorkspace(id, n, conf)
+	cc := ComposeCase{Kind: "compose", ID: id, Source: "sized", WS: ws, Mismatch: []string{}, Sized: n}
+	root := fmt.Sprintf("c%d", id)
+	_ = os.RemoveAll(root)
+	if err := ws.Write(root); err != nil {
+		panic(err)
+	}
+	var names []string
+	for _, f := range ws.Files {
+		names = append(names, f.Name)
+	}
+	sort.Strings(names)
+	runs := [][]string{names}
+	if n >= 2 {
+		k := 2
+		if n >= 40 {
+			k = 3
+		}
+		// contiguous shares of the sorted names, cut at places chosen by the seed
+		cuts := map[int]bool{}
+		for len(cuts) < k-1 {
+			cuts[1+rng.Below(n-1)] = true
+		}
+		var cur []string
+		for i, f := range names {
+			if cuts[i] {
+				runs = append(runs, cur)
+				cur = nil
+			}
+			cur = append(cur, f)
+		}
+		runs = append(runs, cur)
+		cc.Partitions = 2
+	} else {
+		cc.Partitions = 1
+	}
+	sample := map[string]bool{names[0]: true, names[n-1]: true, names[rng.Below(n)]: true}
+	for f := range sample {
+		cc.Probed = append(cc.Probed, f)
+	}
+	sort.Strings(cc.Probed)
+	want := map[string][]string{}
+	for _, fs := range runs {
+		want[subsetKey(fs)] = fs
+	}
+	for _, f := range cc.Probed {
+		want[subsetKey([]string{f})] = []string{f}
+	}
+	keys := make([]string, 0, len(want))
+	for k := range want {
+		keys = append(keys, k)
+	}
+	sort.Strings(keys)
+	results := make([]SubsetRun, len(keys))
+	sums := make([]*SumCase, len(keys))
+	var wg sync.WaitGroup
+	for i, k := range keys {
+		wg.Add(1)
+		go func(i int, fs []string) {
+			defer wg.Done()
+			results[i], sums[i] = rn.lint(ctx, ws, root, fs)
+		}(i, want[k])
+	}
+	wg.Add(1)
+	go func() {
+		defer wg.Done()
+		rn.opsProbe(ctx, &cc, root, cc.Probed)
+	}()
+	wg.Wait()
+	byKey := map[string]SubsetRun{}
+	for i, k := range keys {
+		byKey[k] = results[i]
+		if sums[i] != nil {
+			cc.Summaries = append(cc.Summaries, sums[i])
+			if sums[i].Scanned != len(want[k]) && sums[i].Bad == "" {
+				sums[i].Bad = fmt.Sprintf("files_scanned=%d but the run was given %d files", sums[i].Scanned, len(want[k]))
+			}
+		}
+	}
+	alone := func(f string) SubsetRun {
+		k := subsetKey([]string{f})
+		if r, ok := byKey[k]; ok {
+			return r
+		}
+		r, sm := rn.lint(ctx, ws, root, []string{f})
+		byKey[k] = r
+		results = append(results, r)
+		if sm != nil {
+			cc.Summaries = append(cc.Summaries, sm)
+		}
+		return r
+	}
+	// the multi-file runs, smallest first
+	var multi []SubsetRun
+	for _, fs := range runs {
+		if len(fs) > 1 || n == 1 {
+			multi = append(multi, byKey[subsetKey(fs)])
+		}
+	}
+	sort.SliceStable(multi, func(a, b int) bool { return len(multi[a].Files) < len(multi[b].Files) })
+	extraAlone := 0
+	firstIn := map[string]SubsetRun{}
+	for _, r := range multi {
+		if r.Err != "" {
+			cc.Mismatch = append(cc.Mismatch, fmt.Sprintf("lint of %d files failed: %s", len(r.Files), r.Err))
+			continue
+		}
+		if len(r.Other) > 0 {
+			cc.Mismatch = append(cc.Mismatch, fmt.Sprintf("run over %d files reports per-file violations located elsewhere: %v", len(r.Files), r.Other))
+		}
+		for _, f := range r.Files {
+			suspicious := ""
+			if c := countPrefix(r.PerFile[f], exp[f].Prefix); c != 1 {
+				suspicious = fmt.Sprintf("file %s: its own violation %s... (constant condition %d == %d) is reported %d times in the run over %d files",
+					f, exp[f].Prefix, exp[f].Number, exp[f].Number, c, len(r.Files))
+			} else if prev, ok := firstIn[f]; ok && !sameKeys(prev.PerFile[f], r.PerFile[f]) {
+				a, _ := json.Marshal(prev.PerFile[f])
+				b, _ := json.Marshal(r.PerFile[f])
+				suspicious = fmt.Sprintf("file %s: in the run over %d files: %s; in the run over %d files: %s", f, len(prev.Files), a, len(r.Files), b)
+			}
+			if _, ok := firstIn[f]; !ok {
+				firstIn[f] = r
+			}
+			_, sampled := byKey[subsetKey([]string{f})]
+			if suspicious == "" && !sampled {
+				continue
+			}
+			if !sampled {
+				if extraAlone >= 6 {
+					cc.Mismatch = append(cc.Mismatch, suspicious)
+					continue
+				}
+				extraAlone++
+			}
+			single := alone(f)
+			if single.Err != "" {
+				cc.Mismatch = append(cc.Mismatch, fmt.Sprintf("lint of [%s] failed: %s", f, single.Err))
+				continue
+			}
+			if c := countPrefix(single.PerFile[f], exp[f].Prefix); c != 1 {
+				cc.Mismatch = append(cc.Mismatch, fmt.Sprintf("file %s linted alone: its own violation %s... is reported %d times", f, exp[f].Prefix, c))
+			}
+			if !sameKeys(r.PerFile[f], single.PerFile[f]) {
+				a, _ := json.Marshal(r.PerFile[f])
+				b, _ := json.Marshal(single.PerFile[f])
+				cc.Mismatch = append(cc.Mismatch, fmt.Sprintf("file %s: in the run over %d files: %s; alone: %s", f, len(r.Files), a, b))
+				if cc.Diff == nil {
+					cc.Diff = rn.shrinkDiffChunks(ctx, ws, root, r, f, single, 24)
+				}
+			} else if suspicious != "" {
+				cc.Mismatch = append(cc.Mismatch, suspicious)
+			}
+		}
+	}
+	cc.Subsets = results
+	if cc.Diff != nil {
+		keep := map[string]bool{}
+		for _, f := range cc.Diff.Block {
+			keep[f] = true
+		}
+		m := probe.Workspace{ID: ws.ID, Config: ws.Config, Custom: ws.Custom}
+		for _, f := range ws.Files {
+			if keep[f.Name] {
+				m.Files = append(m.Files, f)
+			}
+		}
+		cc.MinWS = &m
+	}
+	return cc
+}
+
+// shrinkDiffChunks: like shrinkDiff for big runs: drop chunks of files (halves, quarters, ... single files) from
+// the run while file f is still judged differently than alone, with a budget of Lint calls
+func (rn *runner) shrinkDiffChunks(ctx context.Context, ws probe.Workspace, root string, r SubsetRun, f string, single SubsetRun, budget int) *Diff {
+	cur := r
+	for chunk := len(cur.Files) / 2; chunk >= 1 && budget > 0; chunk /= 2 {
+		for i := 0; i+chunk <= len(cur.Files) && budget > 0; {
+			var fs []string
+			hasF := false
+			for j, g := range cur.Files {
+				if j >= i && j < i+chunk {
+					if g == f {
+						hasF = true
+					}
+					continue
+				}
+				fs = append(fs, g)
+			}
+			if hasF || len(fs) < 2 {
+				i += chunk
+				continue
+			}
+			budget--
+			t, _ := rn.lint(ctx, ws, root, fs)
+			if t.Err == "" && !sameKeys(t.PerFile[f], single.PerFile[f]) {
+				cur = t
+			} else {
+				i += chunk
+			}
+		}
+	}
+	return &Diff{File: f, Block: cur.Files, InBlock: cur.PerFile[f], Alone: single.PerFile[f],
+		Rules: rulesDiffering(cur.PerFile[f], single.PerFile[f]), From: r.Files}
+}
+
+// sizes across and around powers of two and typical pool sizes
+var sizedQuick = []int{1, 2, 7, 15, 16, 17, 31, 32, 33, 47, 63, 64, 65, 100, 129, 257}
+var sizedThorough = []int{1, 2, 3, 4, 5, 7, 8, 9, 15, 16, 17, 24, 31, 32, 33, 47, 48, 63, 64, 65, 96, 97, 100, 127, 128, 129, 255, 256, 257, 511, 512, 513, 1000, 1025}
+
 // ---------------------------------------------------------------- the bundled rules of this tree
 
 type RuleInfo struct {
@@ -964,6 +1228,8 @@ type job struct {
 	source    string
 	rng       *hutil.Rng
 	probeOnly bool
+	sized     int    // > 0: a size-boundary workspace of that many files (ws is generated by runSized)
+	conf      string // its configuration
 }
 
 // poolJobs: the composition workspaces built from the pool
@@ -1093,6 +1359,10 @@ func main() {
 			wg.Add(1)
 			go func(i int, j job) {
 				defer wg.Done()
+				if j.sized > 0 {
+					res[i] = rn.runSized(ctx, j.rng, j.id, j.sized, j.conf)
+					return
+				}
 				res[i] = rn.runCompose(ctx, j.rng, j.id, j.ws, j.source, j.probeOnly)
 			}(i, j)
 		}
@@ -1140,6 +1410,19 @@ func main() {
 	for i, n := range csizes {
 		ws := probe.GenWorkspace(gen, i, n)
 		jobs = append(jobs, job{id: i, ws: ws, source: "generated", rng: hutil.NewRng(gen.Next())})
+	}
+	// size boundaries: every rule enabled for the small ones, the default configuration for the big ones
+	sizes := sizedQuick
+	if tier != "quick" {
+		sizes = sizedThorough
+	}
+	sgen := hutil.NewRng(hutil.SeedFromEnv() ^ 0x512ed)
+	for i, n := range sizes {
+		conf := "default"
+		if n <= 33 {
+			conf = "enable-all"
+		}
+		jobs = append(jobs, job{id: 3000 + i, source: "sized", rng: hutil.NewRng(sgen.Next()), sized: n, conf: conf})
 	}
 	info := PoolInfo{Kind: "pool", Rules: bundleRules()}
 	jobs = append(jobs, poolJobs(hutil.NewRng(hutil.SeedFromEnv()^0x9001), fx.Pool, tier, &info)...)
